@@ -554,17 +554,29 @@ pub(crate) fn unique(val: &[Value], _: Kwargs, _: &State) -> Vec<Value> {
     res
 }
 
+/// Entries by key unless `preserve_order` is on, like when a map is printed or iterated on
+fn map_entries(val: &Map) -> Vec<(&Key<'static>, &Value)> {
+    let mut entries: Vec<_> = val.iter().collect();
+    if cfg!(not(feature = "preserve_order")) {
+        entries.sort_by_key(|e| e.0);
+    }
+    entries
+}
+
 pub(crate) fn values(val: &Map, _: Kwargs, _: &State) -> TeraResult<Vec<Value>> {
-    Ok(val.values().cloned().collect())
+    Ok(map_entries(val).into_iter().map(|(_, v)| v.clone()).collect())
 }
 
 pub(crate) fn keys(val: &Map, _: Kwargs, _: &State) -> TeraResult<Vec<Value>> {
-    Ok(val.keys().map(|k| k.clone().into()).collect())
+    Ok(map_entries(val)
+        .into_iter()
+        .map(|(k, _)| k.clone().into())
+        .collect())
 }
 
 pub(crate) fn pairs(val: &Map, _: Kwargs, _: &State) -> TeraResult<Vec<Value>> {
-    Ok(val
-        .iter()
+    Ok(map_entries(val)
+        .into_iter()
         .map(|(k, v)| Value::from(vec![Value::from(k.clone()), v.clone()]))
         .collect())
 }
